@@ -55,6 +55,8 @@ Stmts  == {"assignX", "assignM", "multiX", "compoundX", "compoundM", "incX", "de
 Nests  == {"none", "if", "else", "for", "range", "switch", "select", "funclit", "defer", "go", "label",
            "funcassign", "funcvar", "funcarg", "funcfield", "block", "ifinit", "typeswitch"}
 Spells == {"direct", "alias", "alias3", "ptralias", "rename", "paren"}
+\* "fnalias": the type is written through an alias R declared inside the function body; several functions of a package
+\* may declare the same local name R for different types (mode "localalias")
 
 Anns == [imm : BOOLEAN, ctors : {<<>>, <<"NewT">>, <<"NewT", "MakeT">>}, mut : BOOLEAN, noise : BOOLEAN]
 
@@ -70,7 +72,9 @@ Valid(c, pkg) ==
   /\ (c.kind = "cmeth" <=> c.stmt \in {"recvInc", "recvDec"})
   /\ (c.kind = "cmeth" => c.via = "p" /\ c.ptr)
   /\ (c.via = "r" => c.ptr = (c.kind = "pmeth"))
-  /\ (c.stmt \in {"onU", "onT2", "local", "recvInc", "recvDec", "starPlain", "starPlainInc"} => c.ptr /\ c.sp = "direct" /\ c.via = "p")
+  /\ (c.stmt \in {"onT2", "local", "recvInc", "recvDec", "starPlain", "starPlainInc"} => c.ptr /\ c.sp = "direct" /\ c.via = "p")
+  /\ (c.stmt = "onU" => c.ptr /\ c.sp \in {"direct", "fnalias"} /\ c.via = "p")
+  /\ (c.sp = "fnalias" => c.ptr /\ c.via = "p" /\ c.kind \in {"ctor1", "other", "init", "ometh"})
   \* `*r = v` on a plain *int that is merely *named* like the receivers of the methods (all receivers are called r)
   /\ (c.stmt \in {"starPlain", "starPlainInc"} => c.kind \in {"ctor1", "ctor2", "other", "init", "pkgvar", "ometh"})
   /\ (c.via = "r" => c.sp = "direct")
@@ -126,6 +130,11 @@ InitProg ==
           s \in Stmts \ {"onU", "local", "recvAssign", "recvInc", "recvDec"}, p \in BOOLEAN, sp \in Spells :
           /\ Valid(Cont(k, s, "p", p, "none", sp), pkg)
           /\ prog = [ann |-> ann, pkg |-> pkg, files |-> OneFile(Cont(k, s, "p", p, "none", sp))]
+  \/ /\ Mode = "localalias"   \* C13: two functions declare the same local alias name for different types
+     /\ \E ann \in {a \in Anns : a.imm /\ ~a.noise}, pkg \in {"d", "u"}, k1 \in {"other", "init"}, k2 \in {"other", "ctor1", "ometh"},
+          s1 \in {"onU", "assignX"}, s2 \in {"onU", "assignX", "incX", "indexXs"} :
+          /\ s1 # s2
+          /\ prog = [ann |-> ann, pkg |-> pkg, files |-> <<<<Cont(k1, s1, "p", TRUE, "none", "fnalias"), Cont(k2, s2, "p", TRUE, "none", "fnalias")>>>>]
   \/ /\ Mode = "seq2"
      /\ \E ann \in SeqAnns, pkg \in {"d", "u"} : \E c1 \in SeqCont(pkg), c2 \in SeqCont(pkg) :
           \E fs \in Splits(<<c1, c2>>) : UniqueCtors(fs) /\ prog = [ann |-> ann, pkg |-> pkg, files |-> fs]
@@ -157,7 +166,7 @@ EnterDecl ==
   /\ UNCHANGED <<prog, fi, ci, diags>>
 
 \* what the checker decides for the statement, from the walk state only
-Seen(c) == ~("NoUnalias" \in Deviations /\ c.sp \in {"alias", "alias3", "ptralias"})
+Seen(c) == ~("NoUnalias" \in Deviations /\ c.sp \in {"alias", "alias3", "ptralias", "fnalias"})
 VisitVerdict(c) ==
   LET code == WriteCode(c.stmt)
       ownPkg == prog.pkg = "d" \/ "CtorAnyPkg" \in Deviations
